@@ -130,6 +130,17 @@ pub(crate) async fn cleanup_stopped_child_resources(
       }
     }
   } else {
+    // A session can fail (peer reset the connection straight after accepting it) before the
+    // NewConnectionEstablished that registers it has been processed. Remember it, so that the
+    // registration does not install an endpoint for a session that is already gone.
+    if stopped_child_actor_type == ActorType::Session && !is_full_core_shutdown {
+      let mut state = core_arc.core_state.write();
+      let early = &mut state.sessions_stopped_before_registration;
+      if early.len() >= 64 {
+        early.pop_front();
+      }
+      early.push_back((stopped_child_actor_id, error_opt.cloned()));
+    }
     tracing::debug!(
       handle = core_handle,
       child_id = stopped_child_actor_id,
